@@ -245,6 +245,8 @@ class EngineD:
             "buffering": sw.choice([None, None, 1, 16, 64, 4096]),
             "prefill": sw.choice([None, "long", "garbage"]),
             "faulty": faulty,
+            # process-global numpy print configuration set by "someone else" in the application
+            "printopts": sw.choice([None, None, {"precision": 3}, {"legacy": "1.13"}, {"precision": 2, "floatmode": "fixed"}, {"suppress": True, "precision": 4}]),
         }
         steps: List[Dict[str, Any]] = []
         n = sw.randint(4, 16)
@@ -320,12 +322,18 @@ class EngineD:
                         f.write("tensor\n1\n400\n" + "\n".join("7.7700000000000000e+00" for _ in range(400)) + "\n")
                     else:
                         f.write("x" * 5000 + "\n")
+        self._printopts = np.get_printoptions()
+        if init.get("printopts"):
+            np.set_printoptions(**init["printopts"])
         self._saved = (getattr(self.exp_mod, "open", None), getattr(self.imp_mod, "open", None))
         self.exp_mod.open = fs.open
         self.imp_mod.open = fs.open
         return w
 
     def _stop(self, w):
+        po = dict(self._printopts)
+        legacy = po.pop("legacy", False)
+        np.set_printoptions(**po, legacy=legacy)
         for mod, old in ((self.exp_mod, self._saved[0]), (self.imp_mod, self._saved[1])):
             if old is None:
                 try:
